@@ -276,28 +276,39 @@ theorem alert_isolated (pr : CountPred) (items : List (Item Pt)) (g : GroupID) :
     (runNode (alertNode pr) () items).filter (fun o => o.1 == g) = runNode (alertNode pr) () (items.filter (fun it => it.group == g)) :=
   demux_noninterference_pure _ items g
 
-/-! ### node-wide state 3: the ExecutionState of a nested lambda node (known finding nested-lambda-state-shared) -/
+/-! ### node-wide state 3 (gone): the ExecutionState of a nested lambda node (was finding nested-lambda-state-shared) -/
 
-/-- Counterexample, true of today's code (replayed by corpus/C06/finding-nested-lambda-state-shared.ops):
-`var nc = lambda: count()` … `groupBy('host')|eval(lambda: nc * 1000 + count())`: host B's first point gets
-2001 in the interleaved run and 1001 alone — the nested lambda's `count()` is one per node, the outer one per group. -/
+/-- Counterexample about the code BEFORE `fix:` dcda92d (regression witness
+corpus/C06/fixed-nested-lambda-state-shared.ops): `var nc = lambda: count()` …
+`groupBy('host')|eval(lambda: nc * 1000 + count())`: host B's first point got 2001 in the interleaved run and 1001
+alone — the nested lambda's `count()` was one per node, the outer one per group. Today's receiver answers 1001 in
+both runs. -/
 theorem nested_lambda_interferes :
     let mk (g : String) (t : Int) : Item Pt := .point g { name := "m", key := g, v := .int 1, time := t }
     let items := [mk "A" 1, mk "B" 1, mk "A" 2]
-    ((runNode evalNestedNode 0 items).filter (fun o => o.1 == "B")).map (·.2.proj) = ["i:2001"] ∧
-    (runNode evalNestedNode 0 (items.filter (fun it => it.group == "B"))).map (·.2.proj) = ["i:1001"] := by
+    ((runNode evalNestedNodeShared 0 items).filter (fun o => o.1 == "B")).map (·.2.proj) = ["i:2001"] ∧
+    (runNode evalNestedNodeShared 0 (items.filter (fun it => it.group == "B"))).map (·.2.proj) = ["i:1001"] ∧
+    ((runNode evalNestedNode () items).filter (fun o => o.1 == "B")).map (·.2.proj) = ["i:1001"] := by
   decide
 
-/-- … while the part of that node's state that IS created per group stays isolated: with the nested state frozen
-(a nested lambda without stateful functions behaves like this) the same receiver is transparent, hence isolated.
-This is the `_partial` side of the finding: isolation holds for where/eval/alert lambdas whose NESTED lambdas are
-stateless. -/
-theorem nested_lambda_stateless_isolated (m r : Nat) (items : List (Item Pt)) (g : GroupID) :
-    let N : Node Unit Nat Pt Out :=
-      { newGroup := fun _ g' first => ((), ((whereNestedNode m r).newGroup 0 g' first).2),
-        recv := fun _ s msg => ((), ((whereNestedNode m r).recv 0 s msg).2) }
-    (runNode N () items).filter (fun o => o.1 == g) = runNode N () (items.filter (fun it => it.group == g)) :=
-  demux_noninterference_pure _ items g
+/-- **Nested lambdas isolated** (today's code, unconditional): where / eval whose lambda uses a lambda var with a
+stateful function — every `CopyReset` copy, i.e. every group, has its own lambda nodes and so its own state of the
+functions inside them — for every stream and every group; `alert().crit(lambda: nl)` is `alert_isolated`. -/
+theorem nested_lambda_isolated (m r : Nat) (items : List (Item Pt)) (g : GroupID) :
+    ((runNode (whereNestedNode m r) () items).filter (fun o => o.1 == g) =
+      runNode (whereNestedNode m r) () (items.filter (fun it => it.group == g))) ∧
+    ((runNode evalNestedNode () items).filter (fun o => o.1 == g) =
+      runNode evalNestedNode () (items.filter (fun it => it.group == g))) :=
+  ⟨demux_noninterference_pure _ items g, demux_noninterference_pure _ items g⟩
+
+/-- non-vacuity / the witness of the former finding on today's receiver: the interleaved hosts of
+`where-nested` (corpus) each pass their own second point only. -/
+example :
+    let mk (g : String) (t : Int) : Item Pt := .point g { name := "m", key := g, v := .int 1, time := t }
+    let items := [mk "A" 1, mk "B" 1, mk "A" 2, mk "B" 2, mk "A" 3, mk "B" 3]
+    (runNode (whereNestedNode 2 0) () items).map (fun o => (o.1, o.2.time)) = [("A", 2), ("B", 2)] ∧
+    (runNode (whereNestedNodeShared 2 0) 0 items).map (fun o => (o.1, o.2.time)) = [("B", 1), ("B", 3)] := by
+  decide
 
 /-! ### identity and isolation together -/
 
